@@ -77,6 +77,7 @@ pub fn run(cases_path: &str, report_path: &str, opts: &[String]) {
     let mut rng = rand::rngs::StdRng::seed_from_u64(seed);
     let mut rep = Report::default();
     let mut base_cache: std::collections::HashMap<String, (Vec<u8>, Value)> = std::collections::HashMap::new();
+    let mut upd_cache: std::collections::HashMap<String, (Value, Option<Vec<u8>>)> = std::collections::HashMap::new();
     for (ci, case) in cases.iter().enumerate() {
         rep.cases += 1;
         let h = case["h"].as_u64().unwrap() as usize;
@@ -118,11 +119,70 @@ pub fn run(cases_path: &str, report_path: &str, opts: &[String]) {
             let class = format!("prefix:{}{}", what, if panic { ":panic" } else { "" });
             rep.fail(&class, json!({"case_index": ci, "case": case, "differs": d, "unprefixed": summarize(&base), "prefixed": summarize(&got)}));
         }
+        // offsets are relative to the header on the way out as well: the same update saved by the document opened behind the
+        // prefix reads like the one saved by the plain document - in the open document after the save and after a reload
+        // (the revision's own cross-reference stream included, every number below /Size is read)
+        if in_domain && base["load"] == "ok" && d.is_empty() && (h % 3 == 1 || !kind.starts_with("file:")) {
+            let tmp = format!("{}.save.tmp", report_path);
+            let (plain_upd, _) = upd_cache.entry(kind.clone()).or_insert_with(|| updated(&bytes, &pw, &tmp)).clone();
+            let (pre_upd, saved) = updated(&pre, &pw, &tmp);
+            let _ = std::fs::remove_file(&tmp);
+            let d2 = diff_keys(&plain_upd, &pre_upd);
+            let mut d3: Vec<String> = Vec::new();
+            if let Some(sv) = &saved {
+                if !sv.starts_with(&pre) { d3.push("saved file does not start with the loaded bytes".into()); }
+            }
+            if !d2.is_empty() || !d3.is_empty() {
+                let first = d2.first().or(d3.first()).unwrap();
+                let what = first.split(':').next().unwrap().trim_start_matches(|c: char| c.is_ascii_digit()).to_string();
+                let what = if what.starts_with("obj") { format!("obj:{}", first.split(':').nth(1).unwrap_or("")) } else { what };
+                rep.fail(&format!("prefix:update:{}", what), json!({"case_index": ci, "case": case, "differs": d2, "other": d3}));
+            }
+            rep.count("update-saved-behind-prefix");
+        }
         if ci < 2 {
             rep.sample(json!({"case": case, "observation": summarize(&got)}));
         }
     }
     rep.write(report_path);
+}
+
+/// one object added to the document and the document saved: what the open document reads afterwards for every number below
+/// /Size, and what a fresh load of the saved bytes reads (flattened into one observation with the keys of `snapshot`)
+fn updated(bytes: &[u8], pw: &[u8], tmp: &str) -> (Value, Option<Vec<u8>>) {
+    use pdf::file::FileOptions;
+    use pdf::object::{PlainRef, Resolve, Updater};
+    use pdf::primitive::{Dictionary, Primitive};
+    let mut f = match guarded(|| FileOptions::cached().password(pw).load(bytes.to_vec())) {
+        Outcome::Done(Ok(f)) => f,
+        Outcome::Done(Err(e)) => return (json!({"load": err_json(&e)}), None),
+        Outcome::Panic(p) => return (json!({"load": panic_json(&p)}), None),
+    };
+    let mut dict = Dictionary::new();
+    dict.insert("AddedByUpdate", Primitive::Integer(17));
+    let created = match guarded(|| f.create(Primitive::Dictionary(dict))) {
+        Outcome::Done(Ok(r)) => json!(r.get_ref().get_inner().id),
+        Outcome::Done(Err(e)) => err_json(&e),
+        Outcome::Panic(p) => panic_json(&p),
+    };
+    let saved = match guarded(|| f.save_to(tmp).map(|_| ())) {
+        Outcome::Done(Ok(())) => json!("ok"),
+        Outcome::Done(Err(e)) => err_json(&e),
+        Outcome::Panic(p) => return (json!({"load": "ok", "created": created, "size": panic_json(&p)}), None),
+    };
+    let r = f.resolver();
+    let top = (f.trailer.size.max(0) as u64).min(5000) + 2;
+    let mut open = Vec::new();
+    for id in 0..top {
+        open.push(match guarded(|| r.resolve(PlainRef { id, gen: 0 })) {
+            Outcome::Done(Ok(Primitive::Stream(s))) => json!({"k": "ok", "p": prim_json(&Primitive::Stream(s))}),
+            other => outcome_prim(other),
+        });
+    }
+    let bytes2 = if saved == "ok" { std::fs::read(tmp).ok() } else { None };
+    let re = match &bytes2 { Some(b) => snapshot(b, pw, true), None => json!({"load": "not saved"}) };
+    (json!({"load": re["load"], "size": re["size"], "root": re["root"], "objs": re["objs"], "npages": re["npages"], "pages": re["pages"], "scan": re["scan"],
+            "version": json!({"created": created, "saved": saved, "open": open})}), bytes2)
 }
 
 fn summarize(v: &Value) -> Value {
